@@ -221,7 +221,78 @@ def dro_expectation_spellings(ctx, seed):
             ctx.count('spelling:same:' + sp)
 
 
+def equality_and_transpose_spellings(ctx, seed):
+    """(a) dro: an equality on a worst-case expectation, E(w@y) - x == c, against the pair of inequalities and against the same
+    equality with terms moved across the sign; (b) ro: a non-square 2-D bi-affine array used directly and through .T"""
+    import rsome as rso
+    from rsome import ro, dro, E
+    r = np.random.default_rng(seed)
+    kind = str(r.choice(['E-equality', 'biaffine-transpose']))
+    if kind == 'E-equality':
+        k = int(r.integers(1, 3)); S = int(r.integers(1, 3))
+        w = r.choice([0.5, 1.0, 2.0], k); g = r.choice([1.0, 2.0], k); c = float(r.choice([-2.0, -0.5, 1.0, 3.0]))
+        mean = r.choice([0.25, 0.5, 1.0], k); hi = mean + r.choice([1.0, 2.0], k)
+        sense = str(r.choice(['min', 'max']))
+
+        def build(sp):
+            m = dro.Model(S); x = m.dvar(); y = m.dvar(k); z = m.rvar(k)
+            fs = m.ambiguity(); fs.suppset(z >= 0, z <= hi); fs.exptset(E(z) == mean)
+            (m.minsup if sense == 'min' else m.maxinf)(E(x), fs)
+            m.st(y >= g * mean, y <= 3 * g * mean + 1, x <= 100, x >= -100)
+            if sp == 'equality':
+                m.st(E(w @ y) - x == c)
+            elif sp == 'two-inequalities':
+                m.st(E(w @ y) - x <= c, E(w @ y) - x >= c)
+            elif sp == 'terms-moved':
+                m.st(E(w @ y) == x + c)
+            else:
+                m.st(x - E(w @ y) == -c)
+            return m
+        spells = ['two-inequalities', 'equality', 'terms-moved', 'negated']
+    else:
+        rows, cols = [(2, 3), (3, 2), (2, 4)][int(r.integers(3))]
+        X0 = r.choice([-1.0, 0.5, 1.0, 2.0], (rows, cols)); cc = r.choice([0.0, 1.0, -1.0], (rows, cols)); rad = float(r.choice([0.5, 1.0]))
+        cap = r.choice([5.0, 8.0, 12.0], (rows, cols))
+
+        def build(sp):
+            m = ro.Model(); x = m.dvar((rows, cols)); z = m.rvar((rows, cols)); t = m.dvar(rows); u = m.dvar()
+            m.minmax(t.sum() + u, abs(z) <= rad)
+            m.st(x == X0)
+            expr = x * z + cc * x
+            if sp == 'direct':
+                m.st(expr.sum(axis=1) <= t, expr <= cap + u)
+            elif sp == 'transposed-sum':
+                m.st(expr.T.sum(axis=0) <= t, expr <= cap + u)
+            else:
+                m.st(expr.sum(axis=1) <= t, expr.T <= cap.T + u)
+            return m
+        spells = ['direct', 'transposed-sum', 'transposed-elementwise']
+    vals = {}
+    for sp in spells:
+        ctx.search_cases += 1; ctx.evaluations += 1
+        case = {"eqt_seed": seed, "kind": kind, "spelling": sp}
+        try:
+            with C.quiet():
+                m = build(sp)
+            vals[sp] = C.solve_model(m)
+        except C.SkipCase:
+            ctx.count('eqt:skipped'); continue
+        except RuntimeError:
+            vals[sp] = None
+        except Exception as ex:
+            ctx.hit('spelling-raises:' + kind + ':' + sp + ':' + type(ex).__name__, {"error": str(ex)[:200]}, case); continue
+    ref = vals.get(spells[0])
+    for sp, v in vals.items():
+        if (v is None) != (ref is None) or (v is not None and abs(v - ref) > 1e-5 * (1 + abs(ref))):
+            ctx.hit('spelling-changes-optimum:' + kind + ':' + sp, {"reference_spelling": spells[0], "reference": ref, "this_spelling": v, "all": vals},
+                    {"eqt_seed": seed, "kind": kind, "spelling": sp})
+        else:
+            ctx.count('eqt:same:' + kind + ':' + sp)
+
+
 def run(ctx):
+    for k in range(ctx.n(16, 200)):
+        equality_and_transpose_spellings(ctx, int(ctx.rng.integers(2 ** 31)))
     for k in range(ctx.n(12, 150)):
         dro_expectation_spellings(ctx, int(ctx.rng.integers(2 ** 31)))
     for k in range(ctx.n(60, 900)):
@@ -256,6 +327,10 @@ def run(ctx):
 
 
 def replay(rp):
+    if 'eqt_seed' in rp['case']:
+        ctx = C.Ctx('C15', 'quick', 0)
+        equality_and_transpose_spellings(ctx, rp['case']['eqt_seed'])
+        return {"hits": [(h['key'], h['detail']) for h in ctx.hits], "fails": bool(ctx.hits)}
     c = rp['case']
     if 'spelling_seed' in c:
         ctx = C.Ctx('C15', 'quick', 0)
